@@ -4,7 +4,7 @@
    unify f s ext u v : UOk s' ext' | UFail | UOOF (fuel f exhausted; a separate outcome). *)
 From Coq Require Import List ZArith Bool Arith.
 From PV Require Import Model.Term Model.Subst Model.Unify Model.FD Model.State Model.Engine Proofs.UnifyProofs
-  Proofs.KeyStream Proofs.Acyc Proofs.BodyInv Proofs.AcycState.
+  Proofs.KeyStream Proofs.Acyc Proofs.BodyInv Proofs.AcycState Proofs.ScopeElab Proofs.ScopeState Proofs.ScopeReify.
 Import ListNotations.
 
 (* success: the solutions of the answer are exactly the unifiers of u and v that are consistent
@@ -91,6 +91,11 @@ Proof.
   - apply post_domain_acyc, A.
   - apply post_constraint_acyc, A.
 Qed.
+(* the reification step keeps the substitution acyclic too (its any-variables are drawn from the
+   counter, above every variable of a scoped state): the reified answer contains no cyclic term *)
+Theorem C01_reify_acyclic : forall f s n t s' n',
+  acyc s -> smapb n s -> tb n t -> reify_s f s n t = Some (s', n') -> acyc s'.
+Proof. intros f s n t s' n' A Hs Ht H. exact (proj1 (proj1 (reify_scope f) s n t s' n' A Hs Ht H)). Qed.
 Example C01_acyc_example : acyc [(1, TCons (TVar 2 false) TEmpty); (0, TVar 1 false)].
 Proof. exact acyc_example. Qed.
 
@@ -121,3 +126,4 @@ Print Assumptions C01_acyclic_everywhere.
 Print Assumptions C01_acyclic_answers.
 Print Assumptions C01_acyclic_initial.
 Print Assumptions C01_acyclic_ops.
+Print Assumptions C01_reify_acyclic.
